@@ -96,5 +96,12 @@ TextView == Write(A, FALSE)
 
 (* ---------------------------- generator -------------------------------- *)
 Case(X) == [A |-> X, text0 |-> Write(X, FALSE), text1 |-> WriteV(X, TRUE, FALSE), text2 |-> WriteV(X, TRUE, TRUE)]
-EmitCases == ndJsonSerialize(IOEnv.OUT_FILE, SetToSeq({ Case(X) : X \in { Y \in AnnSpace : Valid(Y) } }))
+(* written in six parts (charge x adducts) to files OUT_FILE.1 .. OUT_FILE.6: TLC refuses explicit sets of more   *)
+(* than 10^6 elements and the thorough space has 1.1 million annotations                                           *)
+Parts == <<<<0, FALSE>>, <<0, TRUE>>, <<2, FALSE>>, <<2, TRUE>>, <<-1, FALSE>>, <<-1, TRUE>>>>
+PartSpace(p) == { Build(seq, ch, iv, p[1], p[2]) : seq \in Seqs, ch \in ModChoices, iv \in IntervalShapes(MaxLen) }
+EmitCases == /\ TLCGet("stats").diameter >= 0
+             /\ \A k \in 1..Len(Parts) :
+                   ndJsonSerialize(IOEnv.OUT_FILE \o "." \o ToString(k),
+                                   SetToSeq({ Case(X) : X \in { Y \in PartSpace(Parts[k]) : Valid(Y) } }))
 ==============================================================================
